@@ -157,6 +157,22 @@ def check_lists(part, tier, acc):
             wb = [1 if _in(x, lst) else 0 for x in ctx] if lst else []
             wi = [(_pos(x, lst) + 1) if _in(x, lst) else 0 for x in ctx] if lst else []
             acc.obs(gb, gi)
+            # the context (e.g. polyhedron.variables) or the list given as puan.variable objects instead of raw ids
+            if lst and all(isinstance(x, str) for x in ctx):
+                vctx = [puan.variable(x, BMENU[j % 6]) for j, x in enumerate(ctx)]
+                vlst = [puan.variable(x, (0, 1)) for x in lst if isinstance(x, str)]
+                try:
+                    alt = [np.asarray(pnd.boolean_ndarray.from_list(list(lst), list(vctx))).tolist(), np.asarray(pnd.integer_ndarray.from_list(list(lst), list(vctx))).tolist()]
+                    if len(vlst) == len(lst):
+                        alt += [np.asarray(pnd.boolean_ndarray.from_list(list(vlst), list(ctx))).tolist(), np.asarray(pnd.integer_ndarray.from_list(list(vlst), list(ctx))).tolist()]
+                except BaseException as e:
+                    acc.violation(None, case, {"what": "from_list raised with puan.variable objects", "exc": repr(e)})
+                    continue
+                acc.n("transitions", len(alt))
+                if any(a != w for a, w in zip(alt, [wb, wi, wb, wi])):
+                    acc.violation(None, case, {"what": "from_list marks other entries when the context / the list is given as puan.variable objects", "got": alt,
+                                               "want_boolean": wb, "want_integer": wi})
+                    continue
             if gb != wb or gi != wi:
                 acc.violation(None, case, {"what": "from_list does not mark exactly the listed ids (with 1-based positions)", "boolean": gb, "integer": gi,
                                            "want_boolean": wb, "want_integer": wi})
